@@ -410,6 +410,12 @@ func readHeader(in *io.Reader) (manifest []byte, mac []byte, err error) {
 		return nil, nil, errors.New("message authentication code not found")
 	}
 
+	// An error from the source (other than EOF) must not be lost, even when it was returned together with the bytes that complete the header
+	// Otherwise, a reader that reports a failure only once would have its error silently turned into a clean end of stream
+	if err != nil && !errors.Is(err, io.EOF) {
+		return nil, nil, err
+	}
+
 	// Whatever data we read extra, add it back to the beginning of the stream
 	if n > lastNewline {
 		// We need to copy the data because the buffer will be given back
